@@ -152,3 +152,6 @@ def run_proofs(ctx):
                "A-lib: dict.fromkeys = first-occurrence dedup; collections.abc.Set.__sub__/__or__ as inherited by OrderedSet; set cardinality axioms (vf/pyvc/stdlib.py)",
                "use_sympy=False path only (sympy is not installed in /venv)")
     run_contracts(ctx, cs, reg, workloads=workloads(), concrete_env=CONCRETE_ENV)
+    from vf.proofs.terms import run_terms
+
+    run_terms(ctx, "C20")
